@@ -5,6 +5,8 @@ import (
 	"io"
 	"os"
 	"path/filepath"
+	"strconv"
+	"strings"
 	"time"
 
 	"github.com/syndtr/goleveldb/leveldb"
@@ -156,6 +158,12 @@ func (n *Node) CrashRestart(board Board, workDir string) error {
 	if err := CopyDir(n.DBDir, newDir); err != nil {
 		return err
 	}
+	if tw := n.TornNext; tw != nil {
+		n.TornNext = nil
+		if err := TearWrite(newDir, tw); err != nil {
+			return fmt.Errorf("harness: cannot prepare the torn write: %w", err)
+		}
+	}
 	ksSrc, err := n.EnsureKeyStoreOnDisk(workDir)
 	if err != nil {
 		return err
@@ -200,4 +208,72 @@ func (n *Node) CrashRestart(board Board, workDir string) error {
 		n.State.SetShadow(content)
 	}
 	return nil
+}
+
+
+// TornWrite describes the state write a process was killed in the middle of: the record of Put(Key, Val)
+// reaches the journal only up to a cut (Cut selects where: 1 = all but the last byte, 2 = half of the
+// record, 3 = a few bytes of it).
+type TornWrite struct {
+	Key   string
+	Val   []byte
+	Cut   int
+	Bytes int // filled in: length of the whole record
+	Kept  int // filled in: bytes of it left in the journal
+}
+
+// TearWrite performs the write on the database in dir with the library's default options (exactly what
+// LevelDBState.Set does), closes it, and truncates the journal inside the record just written.
+func TearWrite(dir string, tw *TornWrite) error {
+	db, err := leveldb.OpenFile(dir, nil)
+	if err != nil {
+		return err
+	}
+	journal := func() (string, int64) {
+		ents, _ := os.ReadDir(dir)
+		best, bestN := "", int64(-1)
+		for _, e := range ents {
+			name := e.Name()
+			if !strings.HasSuffix(name, ".log") {
+				continue
+			}
+			n, err := strconv.ParseInt(strings.TrimSuffix(name, ".log"), 10, 64)
+			if err == nil && n > bestN {
+				best, bestN = name, n
+			}
+		}
+		if best == "" {
+			return "", 0
+		}
+		st, err := os.Stat(filepath.Join(dir, best))
+		if err != nil {
+			return "", 0
+		}
+		return filepath.Join(dir, best), st.Size()
+	}
+	j0, s0 := journal()
+	if err := db.Put([]byte(tw.Key), tw.Val, nil); err != nil {
+		_ = db.Close()
+		return err
+	}
+	j1, s1 := journal()
+	if err := db.Close(); err != nil {
+		return err
+	}
+	if j0 == "" || j0 != j1 || s1 <= s0 {
+		return fmt.Errorf("journal did not grow as expected (%s %d -> %s %d)", j0, s0, j1, s1)
+	}
+	rec := int(s1 - s0)
+	keep := rec - 1
+	switch tw.Cut {
+	case 2:
+		keep = rec / 2
+	case 3:
+		keep = 5
+		if keep >= rec {
+			keep = rec - 1
+		}
+	}
+	tw.Bytes, tw.Kept = rec, keep
+	return os.Truncate(j1, s0+int64(keep))
 }
